@@ -113,6 +113,25 @@ def run(ctx):
             if not (ok and same):
                 ctx.violation(dict(kind='cli-output', file=os.path.basename(f), exit_code=pr.returncode, stdout_head=pr.stdout[:300], stdout_is_one_json_document=doc is not None,
                                    equals_get_info=same, stderr_tail=pr.stderr[-300:], how='python replay_parser.py --replay <file>; json.loads(stdout)'))
+        # additional header blocks that are NOT JSON text (old WoT clients stored pickled battle results there): whatever the reader makes of
+        # them - refuse the file, or hand something on - a replay that parses still yields a serialisable structure
+        import pickle, zlib as zlib_
+        from tools import c01 as c01_
+        bw, vsw = battle.build_simple('wot', '1_10_0', random.Random(2)); stw = bw.stream()
+        zz = zlib_.compress(stw); zz += bytes((-len(zz)) % 8)
+        blocks = [('pickle-tuple-keys', pickle.dumps((123456, {'common': {(1, 2): 'x', 'n': 1}, 'vehicles': {(7, 'a'): [1, 2]}}), 2)),
+                  ('pickle-bytes', pickle.dumps({b'k': b'v', 'arena': (1, 2, 3)}, 2)), ('pickle-set', pickle.dumps((1, {'s': {1, 2}}), 2)), ('not-json', b'\x80\x02 garbage')]
+        for bname, blk in blocks:
+            for ext, eng in (('wotreplay', {'clientVersionFromXml': vsw}),):
+                p = os.path.join(tmp, 'blk-%s.%s' % (bname, ext))
+                c01_.model_write(ext, p, json.dumps(eng).encode(), [blk], struct.pack('<II', len(stw), len(zz)), zz)
+                ctx.case(('non-json-block', bname)); ctx.count('non-json-header-block')
+                try: info = ReplayParser(p, strict=False).get_info()
+                except Exception: ctx.count('non-json-header-block:refused'); continue
+                try: json.dumps(info, cls=DefaultEncoder)
+                except Exception as ex:
+                    ctx.violation(dict(kind='not-serialisable', file=os.path.basename(p), header_block=blk.hex(), exception='%s: %s' % (type(ex).__name__, str(ex)[:200]),
+                                       how='a well-formed wot 1.10.0 container whose second header block is that byte string (a protocol-2 pickle); json.dumps(ReplayParser(file).get_info(), cls=DefaultEncoder)')); break
         # the CLI's options: every log level, strict mode, a raw dump to a writable file, to a missing directory and to a directory. Whatever
         # happens, standard output holds either nothing (the tool failed: diagnostics on stderr, non-zero exit) or exactly one JSON document
         optfiles = [f for f in files if f.endswith('.wowsreplay')][:1] + [f for f in files if not f.endswith('.wowsreplay')][:2]
